@@ -88,10 +88,13 @@ PROPS = {
         "Bounded model checking of the struct-of-arrays collections as a refinement of Vec<Color>: from an arbitrary valid state of "
         "concrete length n in 0..3 (symbolic contents) one operation with symbolic arguments, plus explicit two/three step scripts.",
         "Trusted: Kani/CBMC/cadical and Kani's Vec/allocator model. Collections longer than 3 and growth beyond capacity 4 are outside the bound."),
-    "C19": kprop(
-        "Bounded model checking of the samplers with the RNG replaced by a nondeterministic stub (every RNG stream at once): samples stay "
-        "inside the type's bounds / between the two ends, hues on the requested arc.",
-        "Trusted: Kani/CBMC/cadical; rand's Uniform/Standard float contracts. The volume law is decided by Engine S."),
+    "C19": sprop(
+        "Two halves. Range (Engine K): the RNG is a nondeterministic stub (every RNG stream at once); Standard samples lie within the "
+        "type's bounds, Uniform samples between the two ends, hues on the requested arc. Volume law (Engine S): every Standard float draw "
+        "is a symbolic variable u in [0,1); the real cone / bicone / HWB samplers are executed symbolically and z3 decides for all draws "
+        "that the sample is the inverse CDF of the volume measure (value^3 = r1, saturation^2 = r2, 4 l^3 = r1 ...).",
+        "Trusted: z3, Kani/CBMC/cadical; rand's Standard / Uniform float contracts (uniform on [0,1), low + (high-low) u); the statistical "
+        "quality of rand is outside the claim.", engines=("kani", "symx")),
     "C20": kprop(
         "Bounded model checking of the real Serialize/Deserialize impls against an in-harness serde data-model back end (token recorder, "
         "self-describing and compact): round trip bit for bit, shape of Alpha / hue / metadata, missing alpha => opaque, helper forms.",
